@@ -154,6 +154,25 @@ func (n eqNode) build() any {
 		return eqPrivate{n.Vs[0], n.Vs[1]}
 	case "cond":
 		return stackage.Cond(n.Kw, c05Op(n.Op), n.Kids[0].build())
+	case "holder": // a typed slice / array leaf whose elements are Stacks or Conditions
+		switch n.Kind {
+		case "[]Stack":
+			out := []stackage.Stack{}
+			for i, k := range n.Kids {
+				k.M = n.M*3 + i
+				out = append(out, k.build().(stackage.Stack))
+			}
+			return out
+		case "[1]Condition":
+			return [1]stackage.Condition{n.Kids[0].build().(stackage.Condition)}
+		case "[]any":
+			out := []any{}
+			for _, k := range n.Kids {
+				out = append(out, k.build())
+			}
+			return out
+		}
+		panic(n.Kind)
 	case "zero": // a zero-valued handle as an element: equal to another zero value, different from anything live
 		switch n.Kind {
 		case "Stack":
@@ -231,6 +250,12 @@ func (n eqNode) String() string {
 		return fmt.Sprintf("%s%v", n.Kind, n.Vs)
 	case "zero":
 		return "zero-" + n.Kind
+	case "holder":
+		p := make([]string, len(n.Kids))
+		for i, k := range n.Kids {
+			p[i] = k.String()
+		}
+		return n.Kind + "{" + strings.Join(p, " ") + "}"
 	case "strs":
 		return fmt.Sprintf("%q", n.Ss)
 	case "map":
@@ -334,6 +359,15 @@ func (n eqNode) mutants() []eqNode {
 				m3.Ss[1] = "t"
 			}
 			add(m3, "anyslice bool element changed")
+		}
+	case "holder":
+		for i, k := range n.Kids {
+			for _, km := range k.mutants() {
+				m := cloneNode(n)
+				m.Kids[i] = km
+				m.Same = km.Same
+				add(m, fmt.Sprintf("%s element %d: %s", n.Kind, i, km.Note))
+			}
 		}
 	case "zero":
 		live := eqNode{T: "stack", Kind: "OR", Kids: []eqNode{{T: "prim", V: 1, Kind: "int"}}}
@@ -466,7 +500,7 @@ func (n eqNode) mutants() []eqNode {
 			// IsEqual documents that it does not distinguish slices from arrays of equal content
 			// ... and that pointers are flattened at any depth (a *int 7 is the leaf value 7); which hollow
 			// (zero-valued) handle sits where is not a difference the statement speaks about
-			norm := strings.NewReplacer("array", "slice", "&", "", "pstruct", "struct", "alias:", "stack:", "*[3]byte", "bytes", "[3]byte", "bytes", "[]byte", "bytes", "zero-Stack", "zero", "zero-Condition", "zero", "zero-StackAlias", "zero")
+			norm := strings.NewReplacer("array", "slice", "&", "", "pstruct", "struct", "alias:", "stack:", "*[3]byte", "bytes", "[3]byte", "bytes", "[]byte", "bytes", "zero-StackAlias", "zero", "zero-Stack", "zero", "zero-Condition", "zero")
 			if norm.Replace(n.Kids[i].String()) != norm.Replace(n.Kids[i+1].String()) {
 				m5 := cloneNode(n)
 				m5.Kids[i], m5.Kids[i+1] = m5.Kids[i+1], m5.Kids[i]
@@ -500,6 +534,8 @@ func eqLeaves() []eqNode {
 		{T: "barr", Kind: "[2]uint16", Vs: []int{1, 2}}, {T: "barr", Kind: "[2]bool", Vs: []int{1, 2}}, {T: "barr", Kind: "struct{[2]byte}", Vs: []int{1, 2, 4}},
 		{T: "barr", Kind: "map[string][2]byte", Vs: []int{1, 2}}, {T: "barr", Kind: "[2][2]byte", Vs: []int{1, 2, 4}},
 		{T: "zero", Kind: "Stack"}, {T: "zero", Kind: "Condition"}, {T: "zero", Kind: "StackAlias"},
+		{T: "holder", Kind: "[]Stack", Kids: []eqNode{{T: "stack", Kind: "OR", Kids: []eqNode{{T: "prim", V: "a"}}}, {T: "stack", Kind: "LIST", Kids: []eqNode{{T: "prim", V: 7, Kind: "int"}, {T: "prim", V: "b"}}}}},
+		{T: "holder", Kind: "[1]Condition", Kids: []eqNode{{T: "cond", Kw: "hk", Op: 2, Kids: []eqNode{{T: "prim", V: "hv"}}}}},
 	}
 }
 
